@@ -22,6 +22,7 @@ STAGES = {
     "choices": {"choices", "nested", "labels", "fallback", "conds", "sticky", "choice_print", "done"},
     "counts": {"counts", "turns", "loops"},
     "flow": {"tunnels", "threads"},
+    "functions": {"functions"},
 }
 DEFAULT = set().union(*STAGES.values())
 
